@@ -274,14 +274,21 @@ GUARD = "copia_verif"
 
 
 def build_harness(profiles=("release", "checked")):
-    shutil.copy(os.path.join(REPO, "Cargo.lock"), os.path.join(HARNESS_DIR, "Cargo.lock"))
-    toml = open(os.path.join(HARNESS_DIR, "Cargo.toml.in")).read().replace("@REPO@", REPO)
-    tp = os.path.join(HARNESS_DIR, "Cargo.toml")
+    """The crate manifest is generated per checkout (VERIF_REPO) into .build/, with absolute paths to the sources under
+    harness/, so that runs against different checkouts never share a Cargo.toml / Cargo.lock / target dir."""
+    crate = os.path.join(BUILD, "harness-crate" + _SUFFIX)
+    os.makedirs(os.path.join(crate, ".cargo"), exist_ok=True)
+    shutil.copy(os.path.join(REPO, "Cargo.lock"), os.path.join(crate, "Cargo.lock"))
+    toml = open(os.path.join(HARNESS_DIR, "Cargo.toml.in")).read().replace("@REPO@", REPO).replace("@HARNESS@", HARNESS_DIR)
+    tp = os.path.join(crate, "Cargo.toml")
     if not os.path.exists(tp) or open(tp).read() != toml:
         open(tp, "w").write(toml)
+    cfg = os.path.join(crate, ".cargo", "config.toml")
+    if not os.path.exists(cfg):
+        open(cfg, "w").write("[net]\noffline = true\n")
     env = dict(ENV, RUSTFLAGS="--cfg %s" % GUARD, CARGO_TARGET_DIR=HARNESS_TARGET, VERIF_REPO=REPO)
     for prof in profiles:
-        rc, out = sh(["cargo", "build", "--offline", "--profile", prof], cwd=HARNESS_DIR, env=env, timeout=3000)
+        rc, out = sh(["cargo", "build", "--offline", "--profile", prof, "--manifest-path", tp], cwd=crate, env=env, timeout=3000)
         if rc != 0:
             return False, "harness build (%s) failed:\n%s" % (prof, out[-1500:])
     return True, ""
